@@ -50,9 +50,10 @@ PROPS['C02'] = Prop(
                       'h over all handles incl. own, removed and empty; nesting depth <= 2; invocation arguments symbolic'),
            Run('disp_nested_a2', 'cl_nested.cpp', {'N0': 2, 'AA': 2, 'DD': 2, 'DISP': None}, covers=6, optional_covers=(5,),
                bounds='EventDispatcher<int,...> (dispatch and directDispatch), 2 initial listeners, A=2 actions incl. appendListener/dispatch on a second event; depth <= 2')] + [
-           Run('cl_nested_%s_a2' % tag, 'cl_nested.cpp', dict({'N0': 3, 'AA': 2, 'DD': 2, 'THREADING': thr}, **extra), covers=6, optional_covers=(5,), native=('gxx-O0-san', 'gxx-O2') if tag == 'single' else (),
+           Run('cl_nested_%s_a2' % tag, 'cl_nested.cpp', dict({'N0': 3, 'AA': 2, 'DD': 2, 'THREADING': thr}, **extra), covers=6, optional_covers=(5,), native=('gxx-O0-san', 'gxx-O2') if tag in ('single', 'anycounter') else (),
                bounds='"under every threading policy": the nested programs (3 callbacks, A=2, depth <= 2%s) under %s' % (', EventDispatcher' if extra else '', what))
-           for (tag, thr, extra, what) in [('stdmutex', 'eventpp::MultipleThreading', {}, 'MultipleThreading: the real std::mutex / std::atomic through the engine model of pthread_mutex_* (a lock held across a callback = relock by its owner = deadlock)'),
+           for (tag, thr, extra, what) in [('anycounter', 'VMutexOnlyThreading', {'ANYC': None}, 'the instrumented policy, on a list that has already seen a SYMBOLIC number c0 of additions, 1 <= c0 <= 2^32 - 65 (the generation counter wraps only after 2^32 additions: no addition history short of that may relax the rules)'),
+                                           ('stdmutex', 'eventpp::MultipleThreading', {}, 'MultipleThreading: the real std::mutex / std::atomic through the engine model of pthread_mutex_* (a lock held across a callback = relock by its owner = deadlock)'),
                                            ('spinlock', 'eventpp::GeneralThreading<eventpp::SpinLock>', {}, 'GeneralThreading<SpinLock>: the real SpinLock on its IR atomics (a lock held across a callback spins forever)'),
                                            ('single', 'eventpp::SingleThreading', {}, 'SingleThreading (no locks, plain counters)'),
                                            ('disp_stdmutex', 'eventpp::MultipleThreading', {'DISP': None, 'N0': 2}, 'MultipleThreading (std::mutex via the pthread model)')]],
@@ -146,14 +147,14 @@ PROPS['C10'] = Prop(
 
 _RM = '%s on %s: listeners L0, W (wrapped), L2; %d top-level triggers%s; W and L0 may re-dispatch their own event (nested trigger budget %d); helper object destroyed before the first trigger on one branch; %s'
 def _rm(name, tk, rk, tt, nb, tgt, **kw):
-    what = ['CounterRemover', 'ConditionalRemover (condition takes the arguments)', 'ConditionalRemover (condition takes no arguments)', 'ConditionalRemover (condition callable with and without the arguments)', 'ConditionalRemover (condition object with its own state: every evaluation on the one stored object)'][rk]
+    what = ['CounterRemover', 'ConditionalRemover (condition takes the arguments)', 'ConditionalRemover (condition takes no arguments)', 'ConditionalRemover (condition callable with and without the arguments)', 'ConditionalRemover (condition object with its own state: every evaluation on the one stored object)', 'ConditionalRemover (condition returns a mask 0 / 0x40, not a bool: it holds when the result converts to true)'][rk]
     sym = 'trigger count n is a fully symbolic 32-bit int' if rk == 0 else 'condition outcome is a symbolic bit per evaluation'
     oc = (4,) if rk == 0 else (1, 2, 3)
     if tk != 2: oc = oc + (6,)
     return Run(name, 'removers.cpp', {'TK': tk, 'RK': rk, 'TT': tt, 'NB': nb}, covers=7, optional_covers=oc, bounds=_RM % (what, tgt, tt, ' (alternately direct and enqueue+process)' if tk == 2 else '', nb, sym), **kw)
 PROPS['C16'] = Prop(
     quick=[_rm('counter_cl', 0, 0, 4, 1, 'CallbackList'), _rm('counter_disp', 1, 0, 4, 1, 'EventDispatcher'), _rm('counter_queue', 2, 0, 4, 1, 'EventQueue'),
-           _rm('cond_args_cl', 0, 1, 4, 1, 'CallbackList'), _rm('cond_noargs_disp', 1, 2, 4, 1, 'EventDispatcher'), _rm('cond_args_queue', 2, 1, 3, 1, 'EventQueue'), _rm('cond_both_disp', 1, 3, 3, 1, 'EventDispatcher'), _rm('cond_state_disp', 1, 4, 3, 1, 'EventDispatcher'), _rm('cond_state_cl', 0, 4, 3, 1, 'CallbackList'),
+           _rm('cond_args_cl', 0, 1, 4, 1, 'CallbackList'), _rm('cond_noargs_disp', 1, 2, 4, 1, 'EventDispatcher'), _rm('cond_args_queue', 2, 1, 3, 1, 'EventQueue'), _rm('cond_both_disp', 1, 3, 3, 1, 'EventDispatcher'), _rm('cond_state_disp', 1, 4, 3, 1, 'EventDispatcher'), _rm('cond_state_cl', 0, 4, 3, 1, 'CallbackList'), _rm('cond_mask_cl', 0, 5, 3, 1, 'CallbackList'), _rm('cond_mask_queue', 2, 5, 3, 1, 'EventQueue'),
            _rm('counter_hdisp', 3, 0, 3, 1, 'HeterEventDispatcher'),
            Run('counter_under_faults', 'faults.cpp', {'CLASS': 2}, exc=True, own_new=True, faults=1, covers=6, optional_covers=(3, 5), native=('clang-O1-san', 'clang-O1'),
                bounds='C16 x exceptions: the dispatcher fault run of C09 (F=1), which contains: a CounterRemover listener with count 2 whose invocation throws on trigger 1 or 2 has still been invoked -- it runs on exactly the first two triggers and never on a third'),
@@ -226,8 +227,11 @@ _VCR = [Run('heter_valcat_cl', 'heter_valcat.cpp', {'OBJ': 0}, covers=5, bounds=
         Run('heter_valcat_queue', 'heter_valcat.cpp', {'OBJ': 2}, covers=5, bounds=_VC % 'HeterEventQueue::dispatch'),
         Run('heter_valcat_enqueue', 'heter_valcat.cpp', {'OBJ': 2, 'VIAQ': 1}, covers=5, optional_covers=(0, 1, 2, 3, 4), bounds=_VC % 'HeterEventQueue, enqueue + process (targeted configuration of known finding KF-C14-1: the modifiable-lvalue case)')]
 _HI = 'ArgumentPassingIncludeEvent with a key type whose moved-from state differs from its value (std::map): %s; the key is passed as temporary / lvalue / const lvalue / xvalue; registered key and dispatched key symbolic; two prototypes; listeners must see the key and value the caller passed'
+_HX = 'default ArgumentPassingExcludeEvent mode with a getEvent policy that takes the move-sensitive ARGUMENT by value and consumes its copy: %s; the argument is passed as temporary / lvalue / const lvalue / xvalue; registered event, dispatched event and argument symbolic; two prototypes; the listeners (also of the queued event) must see the caller\'s value, the caller\'s lvalue stays intact'
 _HIR = [Run('heter_include_disp', 'heter_include.cpp', {'OBJ': 1}, covers=6, native=('gxx-O0-san', 'gxx-O2', 'clang-O1'), bounds=_HI % 'HeterEventDispatcher'),
-        Run('heter_include_queue', 'heter_include.cpp', {'OBJ': 2}, covers=6, native=('gxx-O0-san', 'gxx-O2', 'clang-O1'), bounds=_HI % 'HeterEventQueue (dispatch, and enqueue + process)')]
+        Run('heter_include_queue', 'heter_include.cpp', {'OBJ': 2}, covers=6, native=('gxx-O0-san', 'gxx-O2', 'clang-O1'), bounds=_HI % 'HeterEventQueue (dispatch, and enqueue + process)'),
+        Run('heter_exclude_policy_disp', 'heter_include.cpp', {'OBJ': 1, 'EXCL': None}, covers=6, native=('gxx-O0-san', 'gxx-O2', 'clang-O1'), bounds=_HX % 'HeterEventDispatcher'),
+        Run('heter_exclude_policy_queue', 'heter_include.cpp', {'OBJ': 2, 'EXCL': None}, covers=6, native=('gxx-O0-san', 'gxx-O2', 'clang-O1'), bounds=_HX % 'HeterEventQueue (dispatch, and enqueue + process)')]
 PROPS['C14'] = Prop(
     quick=[Run('heter_queue_k2', 'heter.cpp', {'OBJ': 2, 'KK': 2}, covers=9, optional_covers=(1, 3), bounds=_HT % ('HeterEventQueue', 2, ', insert before a handle of any prototype, enqueue of prototype p (also with a convertible argument type), process, processOne, processIf with a predicate callable with exactly one prototype or with all of them (verdict = function of the symbolic payload), one re-entrant enqueue, final drain')),
            Run('heter_queue_qops_k3', 'heter.cpp', {'OBJ': 2, 'KK': 3, 'QOPS_ONLY': None}, covers=9, optional_covers=(0, 6, 7), bounds=_HT % ('HeterEventQueue', 3, '; this run draws only queue operations: enqueue / process / processOne / processIf')),
@@ -357,7 +361,8 @@ PROPS['C07'] = Prop(
     quick=[Run('q_wait_1w_p3', 'q_threads.cpp', {'MODE': 7, 'TT': 2}, preempt=3, covers=8, optional_covers=(0, 1, 2, 3, 4), mt=True, bounds=_WT % ('1 waiter (wait or waitFor, then process)', '', 3)),
            Run('q_wait_1w_scope_p2', 'q_threads.cpp', {'MODE': 7, 'TT': 2, 'SCOPE_THREAD': None}, preempt=2, covers=8, optional_covers=(0, 1, 2, 3, 4), mt=True, bounds=_WT % ('1 waiter', ' + optionally a third thread that opens and closes a DisableQueueNotify scope', 2)),
            Run('hq_wait_1w_p2', 'q_threads.cpp', {'MODE': 7, 'TT': 2, 'HETER': None}, preempt=2, covers=8, optional_covers=(0, 1, 2, 3, 4, 5, 6, 7), mt=True, native=(), bounds=_NOREP + 'HeterEventQueue: ' + _WT % ('1 waiter (wait or waitFor, then process)', '', 2)),
-           Run('q_wait_1w_proc_p1', 'q_threads.cpp', {'MODE': 7, 'TT': 2, 'PROC_THREAD': None}, preempt=1, covers=8, optional_covers=(0, 1, 2, 3, 4, 5, 6, 7), mt=True, bounds=_WT % ('1 waiter', ' + a thread running processIf or processUntil on 1..2 events pending at the start (it takes them out, dispatches some, puts the rest back)', 1))],
+           Run('q_wait_1w_proc_p1', 'q_threads.cpp', {'MODE': 7, 'TT': 2, 'PROC_THREAD': None}, preempt=1, covers=8, optional_covers=(0, 1, 2, 3, 4, 5, 6, 7), mt=True, bounds=_WT % ('1 waiter', ' + a thread running processIf or processUntil on 1..2 events pending at the start (it takes them out, dispatches some, puts the rest back)', 1))]
+           + [Run('q_wait_2w_p2', 'q_threads.cpp', {'MODE': 7, 'TT': 3}, preempt=2, covers=8, optional_covers=(0, 1, 2, 3, 4), mt=True, bounds=_WT % ('1 or 2 waiters (an enqueue made while one woken consumer is inside process() must still wake the other; a waitFor that times out while no DisableQueueNotify object exists leaves no earlier event unconsumed)', '', 2))],
     thorough=[Run('q_wait_1w_proc_p2', 'q_threads.cpp', {'MODE': 7, 'TT': 2, 'PROC_THREAD': None}, preempt=2, covers=8, optional_covers=(0, 1, 2, 3, 4, 5, 6, 7), mt=True, budget_s=1700, bounds=_WT % ('1 waiter', ' + a thread running processIf or processUntil on 1..2 events pending at the start', 2)),
               Run('hq_wait_1w_p3', 'q_threads.cpp', {'MODE': 7, 'TT': 2, 'HETER': None}, preempt=3, covers=8, optional_covers=(0, 1, 2, 3, 4, 5, 6, 7), mt=True, native=(), budget_s=1700, bounds=_NOREP + 'HeterEventQueue: ' + _WT % ('1 waiter', '', 3)),
               Run('q_wait_2w_p3', 'q_threads.cpp', {'MODE': 7, 'TT': 3}, preempt=3, covers=8, optional_covers=(0, 1, 2, 3, 4), mt=True, budget_s=1700, bounds=_WT % ('1 or 2 waiters', '', 3)),
@@ -477,6 +482,12 @@ _more('C09', _FTTH + [_FTOQ, _FTAD,
 _more('C10', [Run('copymove_disp_filters_k3', 'copymove.cpp', {'KK': 3, 'OBJ': 1, 'FILTERS': None}, covers=12, optional_covers=(8, 9, 10), budget_s=1700, bounds='EventDispatcher with MixinFilter, K=3 (see quick)'),
               Run('copymove_queue_filters_k3', 'copymove.cpp', {'KK': 3, 'OBJ': 2, 'FILTERS': None}, covers=12, optional_covers=(8,), budget_s=1700, bounds='EventQueue with MixinFilter, K=3 (see quick)')])
 _more('C11', [_DQNV])
+_C11ST = [Run('q_listener_empty_%s' % tag, 'q_history.cpp', {'KK': 2, 'RA': 1, 'PAYLOAD': 0, 'THREADING': thr}, covers=11, optional_covers=(0, 1, 2, 3, 4, 5, 6, 7, 8, 9, 10, 11, 12),
+              bounds='"the queue is seen as non-empty from inside a listener that process or processOne is running" under %s: C05 histories K=2, RA=1; every listener and predicate call also asks emptyQueue() (must be false while its own event is in dispatch)' % what)
+          for (tag, thr, what) in [('single', _ST, 'SingleThreading (plain counters, no locks)'), ('spin', _SL, 'GeneralThreading<SpinLock>')]]
+PROPS['C11'].quick = list(PROPS['C11'].quick) + _C11ST; _more('C11', _C11ST)
+_W2 = [r for r in PROPS['C07'].quick if r.name == 'q_wait_2w_p2']      # carries the C11 clause 'waitFor times out while no DisableQueueNotify object exists' (assertion 357)
+PROPS['C11'].quick = list(PROPS['C11'].quick) + _W2; _more('C11', _W2); _more('C07', _W2)
 _more('C12', [r for r in PROPS['C12'].quick if r.name.startswith('argument_adapter_')])
 _more('C15', [Run('scoped_disp_equiv_k3', 'scoped.cpp', {'KK': 3, 'TK': 1, 'EQUIV': None}, covers=8, optional_covers=(0, 1, 2, 3, 4, 5, 6, 7), budget_s=1700, bounds=_SR_BOUNDS % ('EventDispatcher with a Map policy whose key equivalence is coarser than operator== of the event type', 3))])
 _more('C16', [r for r in PROPS['C16'].quick if r.name == 'counter_under_faults'])
